@@ -141,7 +141,7 @@ def main(chk, replay=None):
     chk.rule = ("typed value trees (depth <= 4) over None/bool/int (incl. 2^70)/float (NaN, +-inf, -0.0, 1e22)/str (escapes, "
                 "non-BMP)/date/naive+aware datetime/list/dict/function references with partials; signatures of 1-5 "
                 "parameters incl. keyword-only; all presentations (partial prefix x partial kwargs x positional x keyword "
-                "order) and near-miss bindings (one value or type changed), context args. Distinct = distinct canonical "
+                "order) and near-miss bindings (one value or type changed, also made by re-binding a partial keyword), context args, the batch entry points (call_batch / map_over_range) under context args. Distinct = distinct canonical "
                 "value / (signature, binding, presentation); non-trivial = containers or presentations with >= 2 params.")
     chk.assumptions += ["json.dumps on primitives, float repr, datetime.isoformat/dateutil.isoparse, hashlib.sha256 are trusted; "
                         "the model's character rendering of primitives is validated here against them"]
@@ -261,6 +261,18 @@ def main(chk, replay=None):
                     if other.arg_hash == base.arg_hash:
                         viol("a different bound value (or type) gives the same key", {"clause": "injective"}, fn=name, param=p,
                              a=repr(binding[p])[:100], b=repr(alt)[:100])
+                    # the same change made by re-binding an already bound partial keyword is the same call
+                    try:
+                        from twosigma.memento.reference import FunctionReferenceWithArguments as _FWA
+                        reb = fn.partial(**{p: binding[p]}).partial(**{p: alt})
+                        rk = _FWA(reb.fn_reference(), (), {q: v for q, v in b2.items() if q != p}, ctx or None)
+                        chk.count("rebound-partial")
+                        if rk.arg_hash != other.arg_hash or canon_sexpr(rk.effective_kwargs) != canon_sexpr(other.effective_kwargs):
+                            viol("re-binding a partial keyword to another value does not give the key of that value",
+                                 {"clause": "presentation-invariance", "via": "rebound-partial"}, fn=name, param=p,
+                                 first=repr(binding[p])[:100], second=repr(alt)[:100], got=canon_sexpr(rk.effective_kwargs)[:300])
+                    except Exception as e:
+                        viol("re-binding a partial keyword raised", {"clause": "presentation-accepted", "via": "rebound-partial"}, fn=name, error=repr(e)[:200])
             for ctx2 in ({"k": 3}, {"k": "1"}, {"kk": 1}):
                 if (ctx or {}) != ctx2:
                     o = real_fwa(fn, dict(pargs=[], pkw={}, args=[], kwargs=binding), ctx2)
@@ -327,6 +339,55 @@ def main(chk, replay=None):
                          got=repr(got)[:200], expected=repr(dict(first, **rest)))
                 c04fns.s3.forget_all()
             chk.count("chained-partial-scenarios")
+        # every entry point keys a call alike: single call, call_batch and map_over_range, with and without context args
+        for ei in range(12 if quick else 120):
+            name = rng.choice(["s1", "s2", "s3", "s4"])
+            fn, params, kwonly = c04fns.SIGS[name]
+            binding = {p: gen_value(rng, rng.randint(0, 1)) for p in params + kwonly}
+            ctx = rng.choice([{"tenant": "a"}, {"k": 1}, {"k": 1, "j": [True]}, {}])
+            other_ctx = rng.choice([{"tenant": "b"}, {"k": 2}, {"k": "1"}])
+            if canon_sexpr(ctx) == canon_sexpr(other_ctx):
+                continue
+            entry = rng.choice(["call_batch", "map_over_range"])
+            hashable = [q for q in params + kwonly if not isinstance(binding[q], (list, dict))]    # the range's values key the answer
+            if not hashable:
+                entry = "call_batch"
+            bound = fn.with_context_args(ctx) if ctx else fn
+            want_key = real_fwa(fn, dict(pargs=[], pkw={}, args=[], kwargs=binding), ctx).arg_hash
+            fn.forget_all()
+            c04fns.REC.calls.clear()
+            try:
+                if entry == "call_batch":
+                    bound.call_batch([dict(binding)])
+                else:
+                    free = rng.choice(hashable)
+                    rest = {q: v for q, v in binding.items() if q != free}
+                    (bound.partial(**rest) if rest else bound).map_over_range(**{free: [binding[free]]})
+                n0 = len(c04fns.REC.calls)
+                stored = [mm.invocation_metadata.fn_reference_with_args.arg_hash for mm in fn.list_mementos()]
+                bound(**binding)
+                n1 = len(c04fns.REC.calls)
+                fn.with_context_args(other_ctx)(**binding)
+                n2 = len(c04fns.REC.calls)
+                if ctx:
+                    fn(**binding)
+                n3 = len(c04fns.REC.calls)
+            except Exception as e:
+                viol("an entry point raised on a well-formed call", {"clause": "presentation-accepted", "via": entry}, fn=name, error=repr(e)[:300])
+                continue
+            chk.case(["entry", name, entry, to_sexpr(binding), to_sexpr(ctx)], nontrivial=True,
+                     sample=dict(fn=name, entry=entry, context_args=ctx, key=want_key[:16]))
+            chk.count("entry-point:" + entry)
+            if n0 != 1 or stored != [want_key]:
+                viol("%s stored the call under another key than the single call uses" % entry, {"clause": "presentation-invariance", "via": entry},
+                     fn=name, context_args=ctx, stored=[h[:16] for h in stored], expected=want_key[:16], executions=n0)
+            elif n1 != n0:
+                viol("a single call missed the result %s had just memoized under the same context args" % entry,
+                     {"clause": "shares-result", "via": entry}, fn=name, context_args=ctx)
+            elif n2 != n1 + 1 or (ctx and n3 != n2 + 1):
+                viol("a call under different context args was served the result of %s" % entry, {"clause": "context", "via": entry},
+                     fn=name, context_args=ctx, other=other_ctx)
+            fn.forget_all()
         # malformed stream: both sides reject
         for bad in [(1, 2), {1, 2}, {1: 2}, b"x", object(), complex(1, 2), [b"x"], {"a": (1,)}]:
             try:
